@@ -38,7 +38,13 @@ impl IfFilter {
                         if self.evaluator.has_side_effects(branch.get_condition()) {
                             true
                         } else {
-                            replace_else_with = Some(branch.take_block());
+                            // the `else` keyword takes the place of this `elseif`
+                            let else_token = branch.get_tokens().map(|tokens| {
+                                let mut token = tokens.elseif.clone();
+                                token.replace_with_content("else");
+                                token
+                            });
+                            replace_else_with = Some((branch.take_block(), else_token));
                             false
                         }
                     }
@@ -56,7 +62,7 @@ impl IfFilter {
         });
 
         if is_empty {
-            if let Some(block_replacer) = replace_else_with {
+            if let Some((block_replacer, _)) = replace_else_with {
                 if block_replacer.is_empty() {
                     FilterResult::Remove
                 } else {
@@ -73,8 +79,11 @@ impl IfFilter {
             }
         } else {
             if !keep_next_branches {
-                if let Some(block_replacer) = replace_else_with {
+                if let Some((block_replacer, else_token)) = replace_else_with {
                     if_statement.set_else_block(block_replacer);
+                    if let Some(tokens) = if_statement.mutate_tokens() {
+                        tokens.r#else = else_token;
+                    }
                 } else {
                     if_statement.take_else_block();
                 }
@@ -141,7 +150,14 @@ impl IfFilter {
                                 if self.evaluator.has_side_effects(branch.get_condition()) {
                                     true
                                 } else {
-                                    replace_else_with = Some(branch.get_result().clone());
+                                    // the `else` keyword takes the place of this `elseif`
+                                    let else_token = branch.get_tokens().map(|tokens| {
+                                        let mut token = tokens.elseif.clone();
+                                        token.replace_with_content("else");
+                                        token
+                                    });
+                                    replace_else_with =
+                                        Some((branch.get_result().clone(), else_token));
                                     false
                                 }
                             }
@@ -159,8 +175,17 @@ impl IfFilter {
                 });
 
                 if !keep_next_branches {
-                    *if_expression.mutate_else_result() =
-                        replace_else_with.unwrap_or_else(Self::result_placeholder);
+                    if let Some((else_result, else_token)) = replace_else_with {
+                        *if_expression.mutate_else_result() = else_result;
+                        if let Some(mut tokens) = if_expression.get_tokens().cloned() {
+                            if let Some(else_token) = else_token {
+                                tokens.r#else = else_token;
+                                if_expression.set_tokens(tokens);
+                            }
+                        }
+                    } else {
+                        *if_expression.mutate_else_result() = Self::result_placeholder();
+                    }
                 }
                 None
             }
